@@ -4,8 +4,8 @@ package main
 // alias tables is floating-point computation and is not decided.
 
 import (
-	"go/constant"
 	"fmt"
+	"go/constant"
 	"go/token"
 	"go/types"
 	"sort"
